@@ -47,6 +47,10 @@ def expected_map(op, pre, prev):
     if name == "translate":
         t = resolve(prev, op[2])
         return lambda p: [a + b for a, b in zip(p, t)]
+    if name == "rotate_euler":
+        R = euler_matrix(op[2])
+        o = resolve(prev, op[3]) or [Fr(0)] * 3
+        return lambda p: [o[i] + sum(R[i][j] * (p[j] - o[j]) for j in range(3)) for i in range(3)]
     if name == "rotate":
         R = [[Fr(x) for x in r] for r in op[2]]
         o = resolve(prev, op[3]) or [Fr(0)] * 3
@@ -83,9 +87,27 @@ def expected_map(op, pre, prev):
     raise ValueError(name)
 
 
-TRANSFORMS = ("translate", "rotate", "scale", "scale_xyz", "normalize", "fit", "to_origin", "flatten")
+def euler_matrix(q):
+    """rotation by q[0], q[1], q[2] quarter turns about the FIXED axes x, then y, then z (scipy's lower-case "xyz")"""
+    def quarter(axis, k):
+        c, s_ = [(1, 0), (0, 1), (-1, 0), (0, -1)][k % 4]
+        if axis == 0:
+            return [[1, 0, 0], [0, c, -s_], [0, s_, c]]
+        if axis == 1:
+            return [[c, 0, s_], [0, 1, 0], [-s_, 0, c]]
+        return [[c, -s_, 0], [s_, c, 0], [0, 0, 1]]
+
+    def mul(A, B):
+        return [[sum(A[i][k] * B[k][j] for k in range(3)) for j in range(3)] for i in range(3)]
+    R = mul(quarter(2, q[2]), mul(quarter(1, q[1]), quarter(0, q[0])))
+    return [[Fr(x) for x in r] for r in R]
+
+
+TRANSFORMS = ("translate", "rotate", "rotate_euler", "scale", "scale_xyz", "normalize", "fit", "to_origin", "flatten")
 DERIVED = ("subdiv", "border", "tree", "path", "cutgraph", "features")
 EXTERNAL = ("proc", "load", "subdiv", "border", "arr", "tree", "path", "cutgraph", "features")
+ANCHORED_OPS = ("copy", "merge", "from_arrays", "ring", "translate", "rotate", "rotate_euler", "scale", "scale_xyz", "normalize",
+                "fit", "to_origin", "flatten", "edit", "set", "bad")
 STATE_OPS = ("attr", "attr_edit", "elem_edit", "grow")
 
 
@@ -122,9 +144,12 @@ def check_case(case, steps):
                 continue
             if cur[i]["xyz"] != prev[i]["xyz"]:
                 moved = [j for j, (a, b) in enumerate(zip(prev[i]["xyz"], cur[i]["xyz"])) if a != b]
+                if moved:
+                    txt = "slots %s: %s -> %s" % (moved[:4], prev[i]["xyz"][moved[0]], cur[i]["xyz"][moved[0]])
+                else:
+                    txt = "%d vertices -> %d vertices" % (len(prev[i]["xyz"]), len(cur[i]["xyz"]))
                 fails.append((k, name + "/changes-other-object",
-                              "step %d %s on object %s changed object %d (slots %s): %s -> %s"
-                              % (k, name, target, i, moved[:4], prev[i]["xyz"][moved[0]], cur[i]["xyz"][moved[0]])))
+                              "step %d %s on object %s changed object %d (%s)" % (k, name, target, i, txt)))
             if cur[i]["attrs"] != prev[i]["attrs"]:
                 fails.append((k, name + "/changes-other-attributes",
                               "step %d %s on object %s changed the attributes of object %d: %s -> %s"
@@ -132,6 +157,17 @@ def check_case(case, steps):
             if cur[i]["elems"] != prev[i]["elems"]:
                 fails.append((k, name + "/changes-other-elements",
                               "step %d %s on object %s changed the element lists of object %d" % (k, name, target, i)))
+        # a call that fails (or a merge of nothing) leaves everything as it was and creates nothing
+        if name == "bad" or (name == "merge" and not op[1]):
+            if len(cur) != nprev:
+                fails.append((k, name + "/creates-an-object", "step %d %s %s created an object" % (k, name, op[1])))
+        # attribute NAMES: copy / merge / from_arrays / ring / transforms / edits leave no attribute behind on existing objects
+        if name in ANCHORED_OPS:
+            for i in range(nprev):
+                if cur[i].get("attr_names") != prev[i].get("attr_names"):
+                    fails.append((k, name + "/leaves-attributes-behind",
+                                  "step %d %s changed the attribute names of object %d: %s -> %s"
+                                  % (k, name, i, _short(prev[i].get("attr_names")), _short(cur[i].get("attr_names")))))
         # object graph: a mesh never refers back to another live mesh, two meshes never reach one mutable sub-object
         for i, j, what in st.get("backrefs") or []:
             if (i, j, what) not in graph_seen:          # reported once, at the step that creates the reference
